@@ -13,7 +13,7 @@ for d in seeded/$glob/; do [ -f "$d/patch.diff" ] || continue
   git -C "$W" checkout -q -- . ; git -C "$W" apply "/verif/$d/patch.diff" || { echo "$id: patch does not apply"; continue; }
   : > "$d/result-$tier.txt"
   for c in $prop $extra; do
-    grep -q "\"$c\"" cmd/check/main.go || { echo "$id $c: no check yet"; continue; }
+    grep -q "\"$c\"" cmd/check/main.go cmd/check18/main.go || { echo "$id $c: no check yet"; continue; }
     out=$(VERIF_REPO="$W" ./run.sh "$c" "$tier" 2>&1); rc=$?
     line=$(echo "$out" | grep -E "^$c (quick|thorough):" | head -1)
     det=$(echo "$out" | grep -E "violation detail" | head -1 | cut -c1-300)
